@@ -20,7 +20,7 @@ pub fn ok_write(r: &Rec) -> bool {
     }
 }
 fn is_lookup(r: &Rec) -> bool {
-    matches!(r.op, Op::Get { .. } | Op::Mut { .. })
+    matches!(r.op, Op::Get { .. } | Op::Mut { .. } | Op::GetHold { .. })
 }
 pub fn any_err(t: &Trace) -> bool {
     t.recs.iter().any(|r| matches!(r.res, Res::Err(_)))
@@ -39,7 +39,8 @@ pub fn internal(p: &Program) -> i64 {
 }
 /// the cost the policy should charge for value `v` inserted with explicit cost `c`
 pub fn expected_charge(p: &Program, c: i64, v: &Val) -> i64 {
-    (if c != 0 { c } else { p.cfg.coster_cost(v) }) + internal(p)
+    // (a cost near i64::MAX saturates, as the per-entry charge does)
+    (if c != 0 { c } else { p.cfg.coster_cost(v) }).saturating_add(internal(p))
 }
 
 // ------------------------------------------------------------------------------------------------
@@ -616,7 +617,9 @@ pub fn o_reclaim(p: &Program, t: &Trace) -> Vec<Finding> {
         let superseded_at = recs[i + 1..]
             .iter()
             .find(|r| match r.op {
-                Op::Ins { k: k2, .. } | Op::Rem { k: k2 } | Op::Mut { k: k2 } => k2 == k,
+                // (a write the validator refused overwrote nothing)
+                Op::Ins { k: k2, .. } => k2 == k && !r.wrote.map(|nv| t.validator_calls.iter().any(|(_, cv, ok)| *cv == nv && !*ok)).unwrap_or(false),
+                Op::Rem { k: k2 } | Op::Mut { k: k2 } => k2 == k,
                 Op::Pres { k: k2, .. } => k2 == k && r.res == Res::Bool(true),
                 Op::Clear | Op::Close => true,
                 _ => false,
@@ -646,7 +649,7 @@ pub fn o_reclaim(p: &Program, t: &Trace) -> Vec<Finding> {
                 ));
                 return out;
             }
-            let later_write = recs.iter().any(|r| r.call > w.call && r.call < s.at && matches!(r.op, Op::Ins{k:k2,..} | Op::Pres{k:k2,..} if k2 == k));
+            let later_write = recs.iter().any(|r| r.call > w.call && r.call < s.at && matches!(r.op, Op::Ins{k:k2,..} | Op::Pres{k:k2,..} if k2 == k) && !r.wrote.map(|nv| t.validator_calls.iter().any(|(_, cv, ok)| *cv == nv && !*ok)).unwrap_or(false));
             if !later_write && s.policy.key_costs.iter().any(|(kk, _)| *kk == idx) {
                 out.push(f("expired-charge-not-released", format!("{:?} expired and was reclaimed but key {} is still charged", v, k)));
                 return out;
@@ -923,6 +926,18 @@ pub fn o_metrics(p: &Program, t: &Trace) -> Vec<Finding> {
 /// operations, or nothing if a concurrent clear discarded them; removed keys stay gone.
 pub fn o_barrier(p: &Program, t: &Trace) -> Vec<Finding> {
     let mut out = Vec::new();
+    // wait() returns Ok, "or an error if the buffer is full or the cache is being closed": in a
+    // program without close / drop whose insert buffer cannot fill up, every wait() returns Ok
+    let all_ops = || p.setup.iter().chain(p.threads.iter().flatten()).chain(p.post.iter());
+    let queued = all_ops().filter(|o| matches!(o, Op::Ins { .. } | Op::Pres { .. } | Op::Rem { .. } | Op::Wait)).count();
+    if !all_ops().any(|o| matches!(o, Op::Close | Op::DropHandle)) && p.cfg.buffer_size > queued {
+        for r in t.recs.iter().filter(|r| r.op == Op::Wait) {
+            if let Res::Err(e) = &r.res {
+                out.push(f("wait-spurious-error", format!("wait() returned Err({}) although nobody closes the cache and the insert buffer ({} slots) cannot be full ({} queueing operations in the program)", e, p.cfg.buffer_size, queued)));
+                return out;
+            }
+        }
+    }
     let mine: Vec<&Rec> = {
         let mut v: Vec<&Rec> = t.recs.iter().filter(|r| r.th == 0).collect();
         v.sort_by_key(|r| r.idx);
